@@ -98,4 +98,14 @@ theorem boundaries_from_source (sorted : List Rat) (d : Nat) :
   unfold remapBoundaries GenF.boundaryRank
   rfl
 
+/-- **G15b `sliding_clip_from_source`** (C03, C15): the clip `SlidingBoundariesArchive.index_of` applies
+before the boundary search — `clip(m + ε, lower, upper − ε)` — is the model's `sbClip`, hence the
+model's coordinate is the boundary count at exactly the value the code searches for -/
+theorem sliding_clip_from_source (lo hi eps m : Rat) :
+    GenF.sbClip m eps lo hi = Pyribs.sbClip lo hi eps m := rfl
+
+/-- the model's coordinate is the number of boundaries strictly below the value the source computes, minus one -/
+theorem sliding_coord_from_source (bs : List Rat) (lo hi eps m : Rat) :
+    sbCoord bs lo hi eps m = countBelow bs (GenF.sbClip m eps lo hi) - 1 := rfl
+
 end Pyribs.GenFProofs
